@@ -274,13 +274,15 @@ def check_one(ctx, t, root, m, schema, BidsDataset):
         if other:
             ctx.violation("closed:issue-without-file-name", case, {"issues": [x[2] for x in other][:4]})
         impl = {k: list(v) for k, v in impl.items()}
+        # several participating sidecars may share a base name (`events.json` at several levels): what the model lists
+        # for a name is the union over the files of that name
+        listed = collections.defaultdict(list)
+        for f in m["files"]:
+            if f["kind"] == "sidecar" and "issues" in f:
+                listed[os.path.basename(f["path"])] += canon_model_file(f, t["cfw"])
         for x, _, rawi in nameless:
-            for f in m["files"]:
-                if f["kind"] != "sidecar" or "issues" not in f:
-                    continue
-                nm = os.path.basename(f["path"])
-                want = canon_model_file(f, t["cfw"]).count(x)
-                if want > impl.get(nm, []).count(x):
+            for nm, xs in listed.items():
+                if xs.count(x) > impl.get(nm, []).count(x):
                     impl.setdefault(nm, []).append(x)
                     break
             else:
